@@ -219,6 +219,22 @@ class _Random:
 
 random = _Random()
 
+class _MathShim:
+    """stand-in for the `math` module inside prtpy modules: isclose / fabs work on symbolic numbers, the rest is the real thing"""
+    def isclose(self, a, b, *, rel_tol=1e-09, abs_tol=0.0):
+        a = _w(a); b = _w(b)
+        if isinstance(a, float) or isinstance(b, float):
+            return a == b
+        d = a - b
+        if d < 0: d = -d
+        aa = a if a >= 0 else -a; bb = b if b >= 0 else -b
+        big = aa if aa >= bb else bb
+        return d <= _w(rel_tol) * big or d <= _w(abs_tol)
+    def fabs(self, x): return x if _w(x) >= 0 else -x
+    def __getattr__(self, name): return getattr(math, name)
+
+
+mathshim = _MathShim()
 _installed = False
 
 
@@ -233,6 +249,8 @@ def install():
             for attr, val in list(vars(mod).items()):
                 if val is numpy:
                     setattr(mod, attr, me); n += 1
+                elif val is math:
+                    setattr(mod, attr, mathshim); n += 1
     import prtpy.binners as B
     B.BinnerKeepingSums.BinsArray = ndarray
     _installed = True
